@@ -72,12 +72,17 @@ def cmd_confirm(name):
     # existing tests of the touched crates, mutation applied, demo absent
     ok = True; summ = []
     for c in crates:
-        rc, out = sh('cargo test -p %s --offline 2>&1 | grep -E "^test result|error(\\[|:)" ' % c, cwd=WT, env=env, timeout=7200)
-        fails = re.findall(r'test result: FAILED|error(\[|:)', out)
+        rc, out = sh('cargo test -p %s --offline -- --test-threads=6 2>&1 | grep -E "^test result|^test .* FAILED|^error(\\[|:)" ' % c, cwd=WT, env=env, timeout=7200)
         passed = sum(int(x) for x in re.findall(r'(\d+) passed', out))
-        failed = sum(int(x) for x in re.findall(r'(\d+) failed', out))
-        summ.append('%s: %d passed, %d failed' % (c, passed, failed))
-        if fails or failed: ok = False
+        failed_names = re.findall(r'^test (\S+) \.\.\. FAILED', out, flags=re.M)
+        build_err = re.findall(r'^error(\[|:)', out, flags=re.M) and not failed_names and 'test result' not in out
+        still = []
+        for t in failed_names:
+            # time-bounded tests (ntest timeouts, micro-benchmarks) flake when the machine is loaded: re-run alone
+            rc2, out2 = sh('cargo test -p %s --offline %s -- --exact --test-threads=1 2>&1 | grep -E "^test result"' % (c, t), cwd=WT, env=env, timeout=3600)
+            if not re.search(r'test result: ok\. [1-9]\d* passed', out2): still.append(t)
+        summ.append('%s: %d passed, %d failed in the parallel run, %d still failing when re-run alone %s' % (c, passed, len(failed_names), len(still), still[:3]))
+        if still or build_err: ok = False
     res['existing_tests_with_patch'] = summ
     res['existing_tests_ok'] = ok
 
